@@ -35,6 +35,12 @@ legs
               that honours the CRC settings the driver programmed; outcome
               per exchange and host commands as on a new device
 
+Type A targets are generated over the SEL_RES (SAK) value space: every final
+SEL_RES (cascade bit clear) of the target kind's family - b7b6 = 00 (Type 2
+Tag platform: 00h, 08h, 09h, 10h, 18h, ...), b6 = 1 (Type 4A: 20h, 28h, 60h,
+...), b7b6 = 10 (NFC-DEP only: 40h, ...) - in tt2-path, resend and
+target-hist.
+
 The CRC legs also require that calculate_crc / add_crc_* / check_crc_* leave
 the caller's buffer as it was (bytearray, bytes and list arguments).
 """
@@ -896,6 +902,30 @@ def gen_crc_random(tier):
 TT2_DRIVERS = ("pn531", "pn532", "pn533", "rcs956", "acr122", "arygonA",
                "arygonB", "rcs380")
 
+# SEL_RES (SAK) values of Type A targets.  Bit 3 (04h, "UID not complete") is
+# clear in the SEL_RES that ends the anticollision, which is the one a target
+# object carries.  Bits 6 and 7 (20h ISO-DEP, 40h NFC-DEP) say which protocol
+# the target speaks; with both clear it is operated with Type 2 Tag commands
+# (NFC Forum Digital: Type 2 Tag platform; nfc.tag.activate makes a Type2Tag
+# of every such target) whatever the other, proprietary bits say: 00h
+# Ultralight / NTAG, 08h / 18h MIFARE Classic 1K / 4K, 09h Mini, 10h / 11h
+# Plus, 01h / 88h / 98h ... older parts.
+SEL_FAMILY = {
+    "T2T": [v for v in range(256) if v & 0x64 == 0x00],
+    "T4A": [v for v in range(256) if v & 0x24 == 0x20],
+    "DEP-A": [v for v in range(256) if v & 0x64 == 0x40],
+}
+SEL_USUAL = {"T2T": [0x00, 0x00, 0x08, 0x18, 0x09, 0x10, 0x11, 0x01, 0x88],
+             "T4A": [0x20, 0x20, 0x28, 0x38, 0x60, 0x68],
+             "DEP-A": [0x40, 0x40, 0x48]}
+
+
+def sel_res_of(kind):
+    """strategy: a SEL_RES byte of the family (the usual values emphasised,
+    every value of the family possible)"""
+    return st.one_of(st.sampled_from(SEL_USUAL[kind]),
+                     st.sampled_from(SEL_FAMILY[kind]))
+
 
 @st.composite
 def gen_tt2(draw):
@@ -930,7 +960,8 @@ def gen_tt2(draw):
         rf = draw(st.binary(min_size=3, max_size=20))
     cmd = draw(st.sampled_from([b"\x30\x04", b"\xa2\x04\x01\x02\x03\x04",
                                 b"\x30\x00", b"\xc2\xff"]))
-    return {"driver": drv, "kind": kind, "rf": rf, "cmd": cmd}
+    return {"driver": drv, "kind": kind, "rf": rf, "cmd": cmd,
+            "sel": draw(sel_res_of("T2T"))}
 
 
 def run_tt2(case, ctx):
@@ -938,11 +969,16 @@ def run_tt2(case, ctx):
     ctx.set_class("%s/tt2/%s" % ("rcs380" if drv == "rcs380" else "pn53x",
                                  case["kind"]))
     ctx.label("driver:" + drv, "kind:" + case["kind"])
+    sel = case.get("sel", 0)
+    ctx.label("sel_res:%s" % ("00" if sel == 0 else "other-t2t-platform"))
     dev, link = simchip.build(drv)
+    # the chip hands over the frame as received: its own CRC check is off for
+    # every target of this family (sense_tta of the PN53x drivers cleared
+    # RxCRCEn, the RC-S380 driver sets check_crc=0 per exchange)
     link.chip.rf = lambda code, arg: (0, rf_answer)
     clf = simchip.frontend(dev)
     clf.target = nfc.clf.RemoteTarget(
-        "106A", sens_res=bytearray(b"\x44\x00"), sel_res=bytearray(b"\x00"),
+        "106A", sens_res=bytearray(b"\x44\x00"), sel_res=bytearray([sel]),
         sdd_res=bytearray(b"\x04\x01\x02\x03\x04\x05\x06"))
     link.arm()
     if len(rf_answer) <= 2:
@@ -951,7 +987,8 @@ def run_tt2(case, ctx):
         want = rf_answer[:-2]
     else:
         want = None
-    what = "%s tag answer %s" % (drv, rf_answer.hex())
+    what = "%s target SEL_RES %02x tag answer %s" % (drv, sel,
+                                                     rf_answer.hex())
     try:
         got = clf.exchange(bytearray(case["cmd"]), 0.1)
     except nfc.clf.TransmissionError:
@@ -1241,8 +1278,10 @@ def run_resend_tt2(case, ctx):
     answers = []
     chip.rf = lambda code, arg: (0, answers[-1])
     clf = simchip.frontend(dev)
+    sel = case.get("sel", 0)
+    ctx.label("sel_res:%s" % ("00" if sel == 0 else "other-t2t-platform"))
     clf.target = nfc.clf.RemoteTarget(
-        "106A", sens_res=bytearray(b"\x44\x00"), sel_res=bytearray(b"\x00"),
+        "106A", sens_res=bytearray(b"\x44\x00"), sel_res=bytearray([sel]),
         sdd_res=bytearray(b"\x04\x01\x02\x03\x04\x05\x06"))
     link.arm()
     raws = [bytes(c["raw"]) for c in case["cmds"]]
@@ -1255,9 +1294,9 @@ def run_resend_tt2(case, ctx):
         raw, obj, rf_answer = raws[ci], objs[ci], bytes(step["rf"])
         answers.append(rf_answer)
         uses[ci] += 1
-        what = "%s step %d: %s (%s, use %d), tag answer %s" % (
-            drv, k, raw.hex(), case["cmds"][ci]["as"], uses[ci],
-            rf_answer.hex())
+        what = "%s target SEL_RES %02x step %d: %s (%s, use %d), tag answer " \
+            "%s" % (drv, sel, k, raw.hex(), case["cmds"][ci]["as"], uses[ci],
+                    rf_answer.hex())
         if len(rf_answer) <= 2:
             want = rf_answer
         elif ref_crc.check_a(rf_answer):
@@ -1301,12 +1340,13 @@ def run_resend_tt2(case, ctx):
 # of CIU_RxMode, cleared after a Type 2 Tag was found), so the simulated chips
 # get an RF receiver model here that honours that state.
 HIST_KINDS = {
-    "pn531": ["T2T", "T4A", "T3T"], "arygonA": ["T2T", "T4A", "T3T"],
-    "pn532": ["T2T", "T4A", "T3T", "T4B"],
-    "pn533": ["T2T", "T4A", "T3T", "T4B"],
-    "rcs956": ["T2T", "T4A", "T3T", "T4B"],
-    "acr122": ["T2T", "T4A", "T3T", "T4B"],
-    "arygonB": ["T2T", "T4A", "T3T", "T4B"],
+    "pn531": ["T2T", "T4A", "T3T", "DEP-A"],
+    "arygonA": ["T2T", "T4A", "T3T", "DEP-A"],
+    "pn532": ["T2T", "T4A", "T3T", "T4B", "DEP-A"],
+    "pn533": ["T2T", "T4A", "T3T", "T4B", "DEP-A"],
+    "rcs956": ["T2T", "T4A", "T3T", "T4B", "DEP-A"],
+    "acr122": ["T2T", "T4A", "T3T", "T4B", "DEP-A"],
+    "arygonB": ["T2T", "T4A", "T3T", "T4B", "DEP-A"],
     "rcs380": ["T2T", "T4A", "T3T", "T4B", "T3T-424", "DEP-A"],
 }
 H_UID = bytes.fromhex("04a1b2c3")
@@ -1351,6 +1391,7 @@ class AirWorld(object):
 
     def __init__(self):
         self.kind = None
+        self.sel = None         # SEL_RES byte of a Type A tag in the field
         self.answers = []
         self.log = []           # one entry per frame the chip received
 
@@ -1366,7 +1407,7 @@ class AirWorld(object):
                 bcc = H_UID[0] ^ H_UID[1] ^ H_UID[2] ^ H_UID[3]
                 return H_UID + bytes([bcc])             # no CRC
             if data[:2] == b"\x93\x70":
-                return ref_crc.add_a(H_SEL[k])
+                return ref_crc.add_a(bytes([self.sel]))
         if tech == "F" and data[1:2] == b"\x00" and len(data) == 6:
             return air_seal("F", bytes([len(H_SENSF) + 1]) + H_SENSF)
         if tech == "B" and data[:1] == b"\x05":
@@ -1434,7 +1475,8 @@ def air_model_pn53x(chip, world):
         if code == 0x4A:
             brty = arg[1]
             if brty == 0 and tech == "A":
-                mode, found = 0x80, H_SENS[k][::-1] + H_SEL[k] + b"\x04" + H_UID
+                mode = 0x80
+                found = H_SENS[k][::-1] + bytes([world.sel]) + b"\x04" + H_UID
             elif brty in (1, 2) and tech == "F" and \
                     H_BRTY[k] == ("212F", "424F")[brty - 1]:
                 mode = 0x82 | brty << 4
@@ -1473,16 +1515,19 @@ def hist_device(drv):
     return clf, link, world
 
 
-def hist_sense(clf, world, drv, kind):
-    """put a tag of ``kind`` into the field and let the frontend find it"""
+def hist_sense(clf, world, drv, kind, sel=None):
+    """put a tag of ``kind`` (Type A: with SEL_RES ``sel``, default the usual
+    value of the kind) into the field and let the frontend find it"""
     world.kind, world.answers = kind, []
+    if H_TECH[kind] == "A":
+        world.sel = H_SEL[kind][0] if sel is None else sel
     try:
         t = clf.sense(nfc.clf.RemoteTarget(H_BRTY[kind]))
     except Exception as e:
         raise unexpected(e, detail="%s sense %s" % (drv, kind))
     ok = t is not None and t.brty == H_BRTY[kind]
     if ok and H_TECH[kind] == "A":
-        ok = t.sel_res is not None and bytes(t.sel_res) == H_SEL[kind]
+        ok = t.sel_res is not None and bytes(t.sel_res) == bytes([world.sel])
     if not ok:
         raise HarnessError("%s: simulated %s tag was not found by sense(): %s"
                            % (drv, kind, t))
@@ -1529,13 +1574,13 @@ def damage(tech, payload, dmg):
 _fresh_cmds = {}
 
 
-def fresh_exchange_cmds(drv, kind, cmd):
+def fresh_exchange_cmds(drv, kind, cmd, sel=None):
     """host commands of one exchange of ``cmd`` with a ``kind`` target right
     after a NEW device found it (good answer)"""
-    key = (drv, kind, bytes(cmd))
+    key = (drv, kind, bytes(cmd), sel)
     if key not in _fresh_cmds:
         clf, link, world = hist_device(drv)
-        hist_sense(clf, world, drv, kind)
+        hist_sense(clf, world, drv, kind, sel)
         n0 = len(link.cmds)
         world.answers = [air_seal(H_TECH[kind], b"\x01\x02\x03\x04")]
         try:
@@ -1557,12 +1602,19 @@ def run_target_hist(case, ctx):
     clf, link, world = hist_device(drv)
     trail = []
     kinds = []
+    unusual = False
     for step in case["steps"]:
         kind = step["kind"]
         tech = H_TECH[kind]
         ctx.set_class("%s/hist/%s" % (fam, kind))
-        hist_sense(clf, world, drv, kind)
+        sel = step.get("sel") if tech == "A" else None
+        hist_sense(clf, world, drv, kind, sel)
         kinds.append(kind)
+        if tech == "A":
+            unusual = unusual or world.sel != H_SEL[kind][0]
+            ctx.label("sel_res:%s:%s" % (kind, "usual" if world.sel ==
+                                         H_SEL[kind][0] else "other"))
+        tag = kind if tech != "A" else "%s[%02x]" % (kind, world.sel)
         for x in step["exch"]:
             cmd = H_CMDS[kind][x["cmd"] % len(H_CMDS[kind])]
             dmg = x["damage"]
@@ -1575,7 +1627,7 @@ def run_target_hist(case, ctx):
                 want = raw[:-2]
             else:
                 want = None
-            trail.append("%s:%s" % (kind, dmg[0]))
+            trail.append("%s:%s" % (tag, dmg[0]))
             what = "%s history %s: %s command %s, answer on the air %s" % (
                 drv, " ".join(trail), kind, cmd.hex(), raw.hex())
             world.answers = [raw]
@@ -1600,12 +1652,12 @@ def run_target_hist(case, ctx):
             # what the chip was told for this exchange is what a new device
             # tells it for this target kind
             mine = list(link.cmds[n0:])
-            fresh = fresh_exchange_cmds(drv, kind, cmd)
+            fresh = fresh_exchange_cmds(drv, kind, cmd, sel)
             if mine != fresh:
                 raise Violation("hist-settings-differ", "%s: host commands "
                                 "%s, a new device sends %s"
                                 % (what, _show(mine), _show(fresh)))
-    if len(set(kinds)) >= 2:
+    if len(set(kinds)) >= 2 or unusual:
         ctx.nontrivial()
     ctx.note({"history": trail})
 
@@ -1627,10 +1679,16 @@ _h_exch = st.fixed_dictionaries({
 @st.composite
 def gen_target_hist(draw):
     drv = draw(st.sampled_from(list(TT2_DRIVERS) + ["rcs380", "rcs380"]))
-    kind = st.sampled_from(HIST_KINDS[drv])
-    steps = draw(st.lists(st.fixed_dictionaries({
-        "kind": kind, "exch": st.lists(_h_exch, min_size=1, max_size=2)}),
-        min_size=2, max_size=4))
+    exch = st.lists(_h_exch, min_size=1, max_size=2)
+    # Type A kinds twice: with the usual SEL_RES of the kind (no "sel" key)
+    # and with a SEL_RES drawn from the kind's family
+    step = st.one_of(
+        [st.fixed_dictionaries({"kind": st.just(k), "exch": exch})
+         for k in HIST_KINDS[drv]] +
+        [st.fixed_dictionaries({"kind": st.just(k), "exch": exch,
+                                "sel": sel_res_of(k)})
+         for k in HIST_KINDS[drv] if H_TECH[k] == "A"])
+    steps = draw(st.lists(step, min_size=2, max_size=4))
     return {"driver": drv, "steps": steps}
 
 
@@ -1675,7 +1733,7 @@ def gen_resend(draw):
             "cmd": st.integers(0, ncmd - 1), "rf": _tt2_answer()}),
             min_size=2, max_size=4))
         return {"path": "tt2", "driver": draw(st.sampled_from(TT2_DRIVERS)),
-                "cmds": cmds, "steps": steps}
+                "cmds": cmds, "steps": steps, "sel": draw(sel_res_of("T2T"))}
     ncmd = draw(st.integers(1, 2))
     cmds = [{"op": draw(st.sampled_from(["READ8", "READ8", "WRITE-E8",
                                          "WRITE-NE8", "RSEG"])),
@@ -1747,7 +1805,10 @@ LEGS = [
              "left unchanged (as in crc-short); non-trivial = length >= 1."),
     Leg("tt2-path", run=run_tt2, gen=lambda tier: gen_tt2(), quick=3000,
         thorough=40000, shards_quick=8, shards_thorough=16, nt_floor=0.5,
-        rule="ContactlessFrontend.exchange() with a Type 2 Tag target over "
+        rule="ContactlessFrontend.exchange() with a Type 2 Tag platform "
+             "target (Type A, SEL_RES any of the 32 values with bits 20h, "
+             "40h and the cascade bit clear; 00h, 08h, 18h, 09h, 10h, 11h, "
+             "01h, 88h emphasised) over "
              "the simulated chip of pn531/pn532/pn533/rcs956/acr122/arygonA/"
              "arygonB/rcs380: tag answers with good CRC_A, single bit flip, "
              "burst, byte-swapped CRC, CRC_B instead of CRC_A, 1-2 byte "
@@ -1763,7 +1824,13 @@ LEGS = [
              "the driver says so): 2-4 steps, each step puts a tag of a "
              "generated kind (Type 2, Type 4A, Type 3 at 212/424, Type 4B, "
              "NFC-DEP Type A as the driver supports) into the field, finds "
-             "it with ContactlessFrontend.sense() and runs 1-2 exchange() "
+             "it with ContactlessFrontend.sense() (Type A kinds: NFC-DEP "
+             "Type A now on every driver; in half of the Type A steps the "
+             "tag's SEL_RES is drawn from the kind's family instead of the "
+             "usual 00h / 20h / 40h: Type 2 platform = the 32 values with "
+             "bits 20h, 40h, 04h clear, Type 4A = the 64 values with 20h set "
+             "and 04h clear incl. 60h, NFC-DEP = the 32 values with 40h set, "
+             "20h and 04h clear) and runs 1-2 exchange() "
              "calls whose answers carry a good CRC or are damaged (bit flip, "
              "swapped CRC bytes, CRC of the other technology, replaced CRC, "
              "1-2 byte frames). Oracle per exchange: a frame whose CRC fails "
@@ -1771,8 +1838,9 @@ LEGS = [
              "good one is returned as exactly the payload without CRC bytes "
              "(Type 2 Tag ACK/NAK frames pass), and the host commands of the "
              "exchange equal those a new device sends for the same target "
-             "kind and command. Non-trivial = at least two different target "
-             "kinds on the device."),
+             "kind, SEL_RES and command. Non-trivial = at least two "
+             "different target kinds on the device or a Type A target with "
+             "another than the usual SEL_RES."),
     Leg("resend", run=run_resend, gen=lambda tier: gen_resend(), quick=2400,
         thorough=40000, shards_quick=8, shards_thorough=16, nt_floor=0.35,
         rule="histories of 2-4 exchanges on one driver + simulated chip + "
@@ -1790,7 +1858,9 @@ LEGS = [
              "reference (the simulated tag is mute otherwise), the command "
              "object is unchanged, an answer whose CRC_B fails under the "
              "reference is never accepted, an intact one is returned. 1 of "
-             "4 cases: Type 2 Tag commands over all 8 drivers with good / "
+             "4 cases: Type 2 Tag commands over all 8 drivers to a target "
+             "whose SEL_RES is drawn from the 32 Type 2 platform values (as "
+             "in tt2-path) with good / "
              "damaged CRC_A answers per step (tt2-path oracle per step, the "
              "command reaches InCommunicateThru / InCommRF unchanged every "
              "time). Non-trivial = some command object was transmitted at "
